@@ -23,10 +23,10 @@ using namespace uscxml;
 namespace {
 std::mutex g_logMutex;
 std::vector<std::string> g_log;
-std::chrono::steady_clock::time_point g_start;
+long g_start = 0;
 
 long nowMs() {
-	return (long)std::chrono::duration_cast<std::chrono::milliseconds>(std::chrono::steady_clock::now() - g_start).count();
+	return uv::coarseMs() - g_start;
 }
 void logLine(const char* what, const char* key) {
 	std::lock_guard<std::mutex> lock(g_logMutex);
@@ -50,7 +50,7 @@ public:
 };
 
 std::string dqOne(const std::string& script, const std::string& hooks) {
-	g_start = std::chrono::steady_clock::now();
+	g_start = uv::coarseMs();
 	if (hooks != "-" && hooks.size()) {
 		for (const std::string& h : uv::split(hooks, ',')) {
 			size_t eq = h.find('=');
